@@ -524,9 +524,80 @@ func (e *enc) evalCall(n *SCall, env *Env) SVal {
 		return SVal{t: fmt.Sprintf("(sarr %s)", arg(0).t), sort: "Ref"}
 	case "off":
 		return SVal{t: fmt.Sprintf("(soff %s)", arg(0).t), sort: "Int"}
-	case "held":
-		// held(mu): ghost lock state of a sync.Mutex value addressed by &mu
-		env.fail("held() not supported here")
+	case "stored", "updated", "content", "size":
+		// abstract store theory: ghost state of a storage.Store value, per key
+		s, k := arg(0), arg(1)
+		if s.sort != "Iface" || k.sort != "Str" {
+			env.fail("%s(store, key) expects (Iface, Str), got (%s, %s)", n.fun, s.sort, k.sort)
+		}
+		kind := n.fun
+		if kind == "stored" {
+			kind = "exists"
+		}
+		cell, vs := e.storeCell(kind)
+		return SVal{t: fmt.Sprintf("(select (select %s %s) %s)", e.get(env.st, cell, e.cellSortOf[cell]), s.t, k.t), sort: vs}
+	case "hasPrefix":
+		e.declareFun("hasPrefix", "(Str Str) Bool")
+		return SVal{t: fmt.Sprintf("(hasPrefix %s %s)", arg(0).t, arg(1).t), sort: "Bool"}
+	case "hasSuffix":
+		e.declareFun("hasSuffix", "(Str Str) Bool")
+		return SVal{t: fmt.Sprintf("(hasSuffix %s %s)", arg(0).t, arg(1).t), sort: "Bool"}
+	case "contains":
+		e.declareFun("strcontains", "(Str Str) Bool")
+		return SVal{t: fmt.Sprintf("(strcontains %s %s)", arg(0).t, arg(1).t), sort: "Bool"}
+	case "cat":
+		r := arg(0).t
+		for i := 1; i < len(n.args); i++ {
+			r = fmt.Sprintf("(strcat %s %s)", r, arg(i).t)
+		}
+		return SVal{t: r, sort: "Str", typ: types.Typ[types.String]}
+	case "isnil":
+		v := arg(0)
+		if v.sort == "Slice" {
+			return SVal{t: fmt.Sprintf("(= (sarr %s) null)", v.t), sort: "Bool"}
+		}
+		return SVal{t: eq(v.t, e.nilOf(v.sort)), sort: "Bool"}
+	}
+	// a deterministic, effect-free Go function of the program used as a spec function
+	{
+		gname := n.fun
+		if !strings.Contains(gname, ".") {
+			gname = env.pkg + "." + gname
+		}
+		gf, ok := e.p.funcs[gname]
+		if !ok {
+			// Type.method(recv, args...)
+			if parts := strings.SplitN(n.fun, ".", 2); len(parts) == 2 {
+				for _, cand := range []string{env.pkg + ".(*" + parts[0] + ")." + parts[1], env.pkg + ".(" + parts[0] + ")." + parts[1]} {
+					if f2, ok2 := e.p.funcs[cand]; ok2 {
+						gf, ok, gname = f2, true, cand
+					}
+				}
+			}
+		}
+		if ok && e.p.isDet(gf) && len(gf.Params) == len(n.args) {
+			var as, sorts []string
+			for i := range n.args {
+				v := arg(i)
+				as = append(as, v.t)
+				sorts = append(sorts, sortOf(gf.Params[i].Type()))
+			}
+			for _, s := range e.p.mods[gf].heapArgs() {
+				sorts = append(sorts, "(Array Ref "+s+")")
+				as = append(as, e.heapNamed(env.st, s))
+			}
+			res := gf.Signature.Results()
+			if res.Len() >= 1 {
+				fnm := "pure_" + sanitize(gname) + "_0"
+				rs := sortOf(res.At(0).Type())
+				if len(as) == 0 {
+					e.declare(fnm, rs)
+					return SVal{t: fnm, sort: rs, typ: res.At(0).Type()}
+				}
+				e.declareFun(fnm, fmt.Sprintf("(%s) %s", strings.Join(sorts, " "), rs))
+				return SVal{t: fmt.Sprintf("(%s %s)", fnm, strings.Join(as, " ")), sort: rs, typ: res.At(0).Type()}
+			}
+		}
 	}
 	// predicate macro
 	name := n.fun
